@@ -167,6 +167,24 @@ func runC04(tb report.TB, rep *report.Reporter, c c04Case) {
 		w.Files[string(h)] = w.fileContent(i)
 	}
 
+	// another process has the same repository open all along (a web UI, a second terminal) and only looks at an older
+	// bug now and then: reading witnesses the times it reads, which rewrites the clock files with what THAT process knows
+	var onlooker *repository.GoGitRepo
+	bystander := ""
+	if c.Seed%3 == 0 {
+		ob := bug.NewBug()
+		op := bug.NewCreateOp(r0.Authors[0], 5, "an older bug somebody keeps looking at", "m", nil)
+		op.Nonce = NonceFor(c.Seed, 7_000_000)
+		ob.Append(op)
+		if err := ob.Commit(r0.Repo); err != nil {
+			tb.Fatalf("harness: %v", err)
+		}
+		bystander = string(ob.Id())
+		if onlooker, err = repository.OpenGoGitRepo(r0.Path, "git-bug", []repository.ClockLoader{bug.ClockLoader}); err != nil {
+			tb.Fatalf("harness: %v", err)
+		}
+		defer onlooker.Close()
+	}
 	b := bug.NewBug()
 	var expected []refmodel.ROp // from the generated specification, ids predicted before the commit
 	var prev []Built
@@ -220,6 +238,11 @@ func runC04(tb report.TB, rep *report.Reporter, c c04Case) {
 		if string(b.Id()) != bugId {
 			if fail("bug-id-changed-by-commit", fmt.Sprintf("%s -> %s", bugId, b.Id())) {
 				return
+			}
+		}
+		if onlooker != nil {
+			if _, err := bug.Read(onlooker, entity.Id(bystander)); err != nil {
+				tb.Fatalf("harness: onlooker: %v", err)
 			}
 		}
 	}
